@@ -1,11 +1,215 @@
-(** C17 - property theorems (placeholder while the proofs are being written). *)
-From Coq Require Import NArith List.
-From CB Require Import Cbor.CborCore.
+(** C17 - property theorems only.  Each is closed by [exact] and followed by [Print Assumptions].
+    Model: Cbor/CborCore.v (RFC 8949 items as ciborium-ll + Decoder/Encoder + value::Value),
+    Cbor/CborSchema.v (derive-generated codecs), Cbor/TokenSchemas.v, Cbor/TokenAmount.v. *)
+From Coq Require Import NArith ZArith List Bool String.
+From CB Require Import Cbor.CborCore Cbor.CborProofs Cbor.CborTotal Cbor.CborNorm
+  Cbor.CborSchema Cbor.SchemaProofs Cbor.TokenSchemas Cbor.TokenAmount Cbor.TokenAmountProofs.
 Import ListNotations.
 Local Open Scope N_scope.
 
-Example model_vector_map_order :
-  encode (VMap false [(VText [107;101;121;50], VPos 0); (VPos 256, VPos 0); (VPos 1, VPos 0)])
-  = [163; 1; 0; 25; 1; 0; 0; 100; 107; 101; 121; 50; 0].
+(** ** Generic data model *)
+
+(** Every well-formed value (any nesting depth) decodes back to itself from the front of any
+    input, the rest being left untouched. *)
+Theorem cbor_value_roundtrip : forall v rest, value_wfb v = true ->
+  exists a, decode_prefix (encode v ++ rest) = Ok v rest a.
+Proof. exact decode_encode_prefix. Qed.
+Print Assumptions cbor_value_roundtrip.
+
+Theorem cbor_value_roundtrip_top : forall v, value_wfb v = true ->
+  exists a, decode_top (encode v) = Ok v [] a.
+Proof. exact decode_encode_top. Qed.
+Print Assumptions cbor_value_roundtrip_top.
+
+(** For an arbitrary Rust [Value] (maps in any order) the round trip yields the same value with
+    every map in the deterministic order ([norm]); [norm] is the identity exactly on sorted values. *)
+Theorem cbor_value_roundtrip_any_order : forall v, value_okb v = true ->
+  exists a, decode_top (encode v) = Ok (norm v) [] a.
+Proof. exact decode_encode_norm. Qed.
+Print Assumptions cbor_value_roundtrip_any_order.
+
+Theorem norm_fixes_sorted : forall v, value_okb v = true -> value_sortedb v = true -> norm v = v.
+Proof. exact norm_sorted_id. Qed.
+Print Assumptions norm_fixes_sorted.
+
+(** Encoding is a function (deterministic by construction); it is injective and prefix-free. *)
+Theorem cbor_encode_deterministic : forall v1 v2 r1 r2, value_wfb v1 = true -> value_wfb v2 = true ->
+  encode v1 ++ r1 = encode v2 ++ r2 -> v1 = v2 /\ r1 = r2.
+Proof. exact encode_prefix_free. Qed.
+Print Assumptions cbor_encode_deterministic.
+
+(** The order of map entries does not influence the bytes: a value and its normal form encode alike,
+    hence decode . encode is idempotent on encodings (canonical re-encoding). *)
+Theorem cbor_reencode_stable : forall v, encode (norm v) = encode v.
+Proof. exact encode_norm. Qed.
+Print Assumptions cbor_reencode_stable.
+
+(** Heads are minimal: whatever head the decoder accepts for an argument [n], the encoder's head
+    for [n] is not longer. *)
+Theorem encode_shortest : forall info r n r' m, Forall (fun b => b < 256) r ->
+  pull_arg info r = Some (Some n, r') -> (List.length (head m n) + List.length r' <= 1 + List.length r)%nat.
+Proof. exact head_shortest. Qed.
+Print Assumptions encode_shortest.
+
+(** The decoder is not canonical: non-shortest heads and indefinite lengths are accepted. *)
+Theorem decode_accepts_noncanonical_refuted :
+  exists bs v, bs <> encode v /\ decode_top bs = Ok v [] 0 /\ decode_top (encode v) = Ok v [] 0.
+Proof. exact noncanonical_witness. Qed.
+Print Assumptions decode_accepts_noncanonical_refuted.
+
+(** Decoding is total: the fuel (a function of the input length) never runs out. *)
+Theorem cbor_decode_total : forall bs, decode_top bs <> OutOfFuel.
+Proof. exact decode_top_total. Qed.
+Print Assumptions cbor_decode_total.
+
+(** Allocation is bounded linearly in the input length, on success and on every error path. *)
+Theorem cbor_decode_alloc_bounded : forall bs, alloc_of (decode_top bs) <= 8256 * N.of_nat (List.length bs) + 4096.
+Proof. exact decode_alloc_bounded. Qed.
+Print Assumptions cbor_decode_alloc_bounded.
+
+Theorem cbor_decode_alloc_consumed : forall bs v r a, decode_prefix bs = Ok v r a ->
+  a + 32 <= 8256 * (N.of_nat (List.length bs) - N.of_nat (List.length r)).
+Proof. exact decode_alloc_consumed. Qed.
+Print Assumptions cbor_decode_alloc_consumed.
+
+(** Trailing data is rejected. *)
+Theorem decode_rejects_trailing : forall v b rest, value_wfb v = true ->
+  exists a, decode_top (encode v ++ b :: rest) = Err a.
+Proof. exact decode_trailing_rejected. Qed.
+Print Assumptions decode_rejects_trailing.
+
+Theorem decode_accepts_only_whole_input : forall bs v r a, decode_top bs = Ok v r a ->
+  r = [] /\ decode_prefix bs = Ok v [] a.
+Proof. exact decode_top_consumes_all. Qed.
+Print Assumptions decode_accepts_only_whole_input.
+
+(** ** Derive-generated codecs (all schemas) *)
+
+(** A missing mandatory field is an error. *)
+Theorem missing_mandatory_field_rejected : forall o fields other i entries mk k s,
+  In (k, s) fields -> null_of s = None ->
+  (forall kx, In kx entries -> key_matches k (fst kx) = false) ->
+  sdec o (SStruct fields other) mk (VMap i entries) = None.
+Proof. exact struct_missing_mandatory. Qed.
+Print Assumptions missing_mandatory_field_rejected.
+
+(** An undeclared field is an error unless the type has a catch-all or the options say Ignore. *)
+Theorem undeclared_field_rejected : forall fields i entries mk k x,
+  In (k, x) entries -> (forall fk fs, In (fk, fs) fields -> key_matches fk k = false) ->
+  sdec Fail (SStruct fields None) mk (VMap i entries) = None.
+Proof. exact struct_unknown_key_fail. Qed.
+Print Assumptions undeclared_field_rejected.
+
+(** ... and with Ignore it has no influence on the result. *)
+Theorem undeclared_field_ignored : forall fields i pre post mk k x,
+  is_mapkey k = true -> (forall fk fs, In (fk, fs) fields -> key_matches fk k = false) ->
+  sdec Ignore (SStruct fields None) mk (VMap i (pre ++ (k, x) :: post))
+  = sdec Ignore (SStruct fields None) mk (VMap i (pre ++ post)).
+Proof. exact struct_unknown_key_ignored. Qed.
+Print Assumptions undeclared_field_ignored.
+
+(** Unknown variants are preserved where the type is wrapped in CborMaybeKnown / CborUpward:
+    decoding keeps the whole item and encoding writes it back. *)
+Theorem maybe_known_preserves_unknown : forall o variants k x,
+  (forall name s, In (name, s) variants -> list_eqb (bytes_of_string name) k = false) ->
+  sdec o (SMaybeKnown (SEnumMap variants false)) false (VMap false [(VText k, x)])
+    = Some (XUnknown (VMap false [(VText k, strip x)]))
+  /\ senc (SMaybeKnown (SEnumMap variants false)) (XUnknown (VMap false [(VText k, strip x)]))
+    = Some (VMap false [(VText k, strip x)]).
+Proof. exact maybe_known_map_unknown. Qed.
+Print Assumptions maybe_known_preserves_unknown.
+
+Theorem maybe_known_preserves_unknown_tag : forall o variants untagged t x,
+  (forall t' c s, In (t', c, s) variants -> (t' =? t) = false) ->
+  sdec o (SMaybeKnown (SEnumTagged variants untagged false)) false (VTag t x)
+    = Some (XUnknown (VTag t (strip x)))
+  /\ senc (SMaybeKnown (SEnumTagged variants untagged false)) (XUnknown (VTag t (strip x)))
+    = Some (VTag t (strip x)).
+Proof. exact maybe_known_tag_unknown. Qed.
+Print Assumptions maybe_known_preserves_unknown_tag.
+
+(** without the wrapper an unknown variant is an error *)
+Theorem unknown_variant_rejected : forall o variants k x,
+  (forall name s, In (name, s) variants -> list_eqb (bytes_of_string name) k = false) ->
+  sdec o (SEnumMap variants false) false (VMap false [(VText k, x)]) = None.
+Proof. exact enum_map_unknown_rejected. Qed.
+Print Assumptions unknown_variant_rejected.
+
+(** ill-typed items are errors (scalars) *)
+Theorem ill_typed_scalar_rejected : forall o mk v,
+  (forall b, v <> VBool b) -> sdec o SBool mk v = None.
+Proof. exact bool_ill_typed. Qed.
+Print Assumptions ill_typed_scalar_rejected.
+
+(** ** Token amounts *)
+
+(** CBOR form: tag 4 [-decimals, value] decodes to exactly (value, decimals). *)
+Theorem token_amount_cbor_roundtrip : forall o v d, v < W64 -> d < 256 ->
+  decode_typed s_TokenAmount o (encode (VTag 4 (VArray false [amount_exponent d; VPos v])))
+  = Some (XList [XZ (- Z.of_N d); XN v]).
+Proof. exact amount_cbor_roundtrip. Qed.
+Print Assumptions token_amount_cbor_roundtrip.
+
+(** a decimal fraction whose exponent is positive or below -255 is not a token amount *)
+Theorem token_amount_exponent_checked : forall o e m mk v,
+  sdec o s_UnsignedDecimalFraction mk v = Some (XList [XZ e; XN m]) ->
+  ((e < -255)%Z \/ (0 < e)%Z) -> sdec o s_TokenAmount mk v = None.
+Proof. exact amount_exponent_rejected. Qed.
+Print Assumptions token_amount_exponent_checked.
+
+(** String form: an exact conversion from any string preserves the number it denotes
+    ([same_number m sc v d] is m * 10^d = v * 10^sc), and is rejected otherwise.  (That Display's own
+    output parses back to the same amount for decimals <= 28 is checked on boundary amounts below and on
+    every generated amount by the correspondence check; the general statement is not proved.) *)
+Theorem token_amount_denotation : forall s d a neg m sc,
+  parse_decimal s = Some (neg, m, sc) -> from_str_exact s d = Some a ->
+  amt_decimals a = d /\ same_number m sc (amt_value a) d /\ (neg = false \/ m = 0).
+Proof. exact from_str_exact_sound. Qed.
+Print Assumptions token_amount_denotation.
+
+Theorem token_amount_lossy_rejected : forall s d neg m sc,
+  parse_decimal s = Some (neg, m, sc) -> d < sc -> m mod 10 ^ (sc - d) <> 0 -> from_str_exact s d = None.
+Proof. exact from_str_exact_lossy. Qed.
+Print Assumptions token_amount_lossy_rejected.
+
+(** JSON form: the value string parses back to the value *)
+Theorem token_amount_json_roundtrip : forall a, amount_ok a = true ->
+  from_json (json_value a) (amt_decimals a) = Some a.
+Proof. exact json_roundtrip. Qed.
+Print Assumptions token_amount_json_roundtrip.
+
+(** ** Non-vacuity *)
+Example roundtrip_nonvacuous :
+  value_wfb (VMap false [(VPos 1, VArray false [VText [195; 169]; VNeg 23]); (VText [97], VTag 4 (VFloat 2 15360))]) = true.
 Proof. reflexivity. Qed.
-Print Assumptions model_vector_map_order.
+Print Assumptions roundtrip_nonvacuous.
+
+Example missing_field_nonvacuous :
+  decode_typed s_TokenTransfer Fail (encode (VMap false [(VText (bytes_of_string "amount"), VTag 4 (VArray false [VNeg 2; VPos 5]))])) = None
+  /\ null_of s_CborHolderAccount = None.
+Proof. split; reflexivity. Qed.
+Print Assumptions missing_field_nonvacuous.
+
+Example unknown_operation_nonvacuous :
+  decode_typed s_TokenOperations Fail (encode (VArray false [VMap false [(VText (bytes_of_string "freeze"), VMap false [])]]))
+  = Some (XList [XUnknown (VMap false [(VText (bytes_of_string "freeze"), VMap false [])])]).
+Proof. reflexivity. Qed.
+Print Assumptions unknown_operation_nonvacuous.
+
+Example amount_nonvacuous :
+  from_str_exact (to_string {| amt_value := 12300; amt_decimals := 3 |}) 3 = Some {| amt_value := 12300; amt_decimals := 3 |}
+  /\ from_str_exact [49; 46; 50; 51] 1 = None.
+Proof. split; reflexivity. Qed.
+Print Assumptions amount_nonvacuous.
+
+(** Display output parses back exactly, on boundary amounts (sample, not a universal statement) *)
+Example amount_display_roundtrip_samples :
+  forallb (fun vd => let a := {| amt_value := fst vd; amt_decimals := snd vd |} in
+                     match from_str_exact (to_string a) (snd vd) with
+                     | Some b => (amt_value b =? fst vd) && (amt_decimals b =? snd vd)
+                     | None => false
+                     end)
+    [(0, 0); (0, 28); (1, 28); (5, 1); (12300, 3); (18446744073709551615, 0); (18446744073709551615, 9);
+     (18446744073709551615, 28); (10, 5); (999, 2); (1000, 3); (4294967296, 10)] = true.
+Proof. vm_compute. reflexivity. Qed.
+Print Assumptions amount_nonvacuous.
